@@ -338,8 +338,52 @@ pub fn parse_frames(b: &[u8]) -> Result<Vec<Frame>, String> {
     let (out, stop) = parse_frames_lenient(b);
     match stop {
         None => Ok(out),
+        // zero bytes up to a block boundary at the very end are skipped by every reader
+        Some((_, e)) if e == ENDS_WITH_PADDING => Ok(out),
         Some((_, e)) => Err(e),
     }
+}
+
+pub const ENDS_WITH_PADDING: &str = "file ends with padding";
+
+/// The smallest documented maximum of a batch: up to this size a batch must be accepted.
+pub const MUST_ACCEPT: u64 = if (sst::MAX_BATCH_LEN as u64) < sst::log::MAX_BATCH_SIZE { sst::MAX_BATCH_LEN as u64 } else { sst::log::MAX_BATCH_SIZE };
+
+/// The file offset at which each batch (given by its payload size, in file order) is complete: the
+/// end of the frame group that holds its last byte.  `Err` when a frame group ends strictly inside a
+/// batch while holding the end of the batch before it (then some cut shows a partial batch).
+/// Several batches in one group and several groups for one batch are both possible.
+pub fn batch_ends(groups: &[Group], payloads: &[u64]) -> Result<Vec<u64>, String> {
+    // batch boundaries in the payload stream
+    let mut bounds = std::collections::BTreeSet::new();
+    let mut psum = 0u64;
+    bounds.insert(0u64);
+    for p in payloads {
+        psum += p;
+        bounds.insert(psum);
+    }
+    // a group that holds bytes of more than one batch must hold whole batches only
+    let mut gsum = 0u64;
+    let mut gends: Vec<(u64, u64)> = vec![]; // (payload offset after the group, file offset after it)
+    for (gi, g) in groups.iter().enumerate() {
+        let (a, b) = (gsum, gsum + g.payload);
+        if g.payload >= 2 && bounds.range(a + 1..b).next().is_some() && !(bounds.contains(&a) && bounds.contains(&b)) {
+            return Err(format!("frame group #{gi} (payload bytes {a}..{b} of the log) holds the end of one batch and part of another"));
+        }
+        gsum = b;
+        gends.push((b, g.end));
+    }
+    if gsum != psum {
+        return Err(format!("the frames hold {gsum} payload bytes, the appended batches {psum}"));
+    }
+    let mut ends = Vec::with_capacity(payloads.len());
+    let mut acc = 0u64;
+    for p in payloads {
+        acc += p;
+        let k = gends.partition_point(|(po, _)| *po < acc);
+        ends.push(gends.get(k).map(|(_, fo)| *fo).unwrap_or(0));
+    }
+    Ok(ends)
 }
 
 /// The frames of the longest well-formed prefix, and where / why parsing stopped (None = the whole
@@ -396,7 +440,7 @@ pub fn parse_frames_lenient(b: &[u8]) -> (Vec<Frame>, Option<(u64, String)>) {
         pos = pe;
     }
     if pad != 0 {
-        stop!(pad_from, "file ends with padding");
+        stop!(pad_from, "{ENDS_WITH_PADDING}");
     }
     (out, None)
 }
